@@ -565,6 +565,11 @@ def iter_next(m, it_ref):
         nb = int_const(bv - 1, b.w, b.signed)
         store(it_ref, IterV("range_rev", a, nb))
         return some(nb)
+    if isinstance(it, IterV) and it.kind == "once":
+        if it.b:
+            return none()
+        store(it_ref, IterV("once", it.a, True))
+        return some(it.a)
     if isinstance(it, IterV) and it.kind == "stepby":
         # StepBy: the first element, then every step-th one
         inner_cell = Cell(it.a)
@@ -1438,3 +1443,35 @@ def _mk_collect_vec_shim():
 SHIMS["__shim::map_next"] = _mk_map_next_shim()
 SHIMS["__shim::flatmap_next"] = _mk_flatmap_next_shim()
 SHIMS["__shim::collect_vec"] = _mk_collect_vec_shim()
+
+
+@model("std::iter::once")
+def m_iter_once(m, st, ctx, args, span):
+    return IterV("once", args[0], False)
+
+
+@model("<std::vec::Vec<T, A> as std::iter::Extend<T>>::extend", "std::iter::Extend::extend")
+def m_vec_extend(m, st, ctx, args, span):
+    r, it = args
+    vec = deref(r)
+    if isinstance(vec, (VecV, Opaque)) and (isinstance(it, IterV) or (isinstance(it, Adt) and it.path.startswith("__iter::"))):
+        return Enter("__shim::extend_vec", [r, it])
+    raise Unsupported("extend(%r, %r)" % (vec, it))
+
+
+def _mk_extend_vec_shim():
+    # fn extend(v: &mut Vec<T>, it) { loop { match next(&mut it) { None => return, Some(x) => v.push(x) } } }
+    # locals: 0 ret, 1 v, 2 it, 3 &mut it, 4 n, 5 discr, 6 x, 7 reborrow v, 8 unit
+    blocks = [
+        _blk([_asg(_pl(3), {"k": "ref", "mut": True, "place": _pl(2)})], _call("__shim::next", [_move(3)], 4, 1)),
+        _blk([_asg(_pl(5), {"k": "discr", "place": _pl(4)})], {"k": "switch", "discr": _move(5), "discr_ty": _ANY, "arms": [["0", 3]], "otherwise": 2}),
+        _blk([_asg(_pl(6), {"k": "use", "op": _some_field(4)}), _asg(_pl(7), {"k": "use", "op": _copy(1)})],
+             _call("std::vec::Vec::<T, A>::push", [_move(7), _move(6)], 8, 0)),
+        _blk([], {"k": "return"}),
+    ]
+    return _body("__shim::extend_vec", 2, 9, blocks)
+
+
+SHIMS["__shim::extend_vec"] = _mk_extend_vec_shim()
+for _n in ("<std::iter::Once<T> as std::iter::Iterator>::next",):
+    MODELS[_n] = _next_dispatch
